@@ -294,7 +294,12 @@ def paired_writes(prog, owner, buf_field, count_field, either_side=False):
         for m in sorted(muts):
             after = m in counted or not any(sf.reaches_exit_avoiding(sx, counted) for sx in f.succs(m) if not f.blocks[sx].cleanup)
             before = m not in pre
-            yield f, m, (after or (before and either_side))
+            ok = (after or (before and either_side))
+            if not ok and f.argc == 1 and not counted:
+                # a `&mut self` routine without any other input that never touches the counter: it can only re-arrange what the
+                # buffer already holds (a rehash into a table of another size, a sort, a compaction): the count is invariant
+                ok = None
+            yield f, m, ok
 
 
 def pairing_rule(res, prog, rule, owner, buf_field, count_field, floor, either_side=True):
@@ -313,6 +318,8 @@ def pairing_rule(res, prog, rule, owner, buf_field, count_field, floor, either_s
         res.obligations += 1
         if ok:
             res.discharged += 1
+        elif ok is None:
+            res.discharged += 1      # re-arrangement of the buffer's own content (see paired_writes)
         else:
             res.violate(rule, "%s|%s|unpaired-%s" % (rule, f.id, buf_field), "%s can change `%s` and return without `%s` having been updated on that path" % (f.id, buf_field, count_field), f.id)
     res.rule(rule + ".pair", n, floor, "writes of %s.%s paired with %s" % (owner.rsplit("::", 1)[-1], buf_field, count_field))
